@@ -236,7 +236,7 @@ def run_cmd(cmd, cwd, timeout, mem_gb=None, logfile=None, env=None):
 class Harness:
     def __init__(self, name, bound, functions, clause, timeout=900, mem_gb=16,
                  extra=None, stubs=None, min_covers=1, witness_class=None, mod=None, cover_group=None,
-                 recursion_bounds=None):
+                 recursion_bounds=None, loop_bounds=None, cbmc_unwind=None):
         self.name = name
         self.mod = mod                # module path inside the crate, e.g. "eval::verif_c03_eval"
         self.bound = bound            # text: stated bound
@@ -254,6 +254,12 @@ class Harness:
         # [(regex over the pretty function name, bound)]: recursion bound for specific (drop-glue)
         # functions, passed to CBMC as --unwindset with the unwinding assertion kept
         self.recursion_bounds = recursion_bounds or []
+        # [(regex over "function <pretty name>" of a loop, bound)]: per-loop unwinding bound (CBMC --unwindset,
+        # unwinding assertion kept) for loops whose trip count symbolic execution cannot see (e.g. a digit loop
+        # over a slice whose length was computed from symbolic data)
+        self.loop_bounds = loop_bounds or []
+        # global unwinding bound passed to CBMC directly (Kani refuses its own unwind flags next to --cbmc-args --unwindset)
+        self.cbmc_unwind = cbmc_unwind
 
 
 # The drop glue / clone / eq of yash_env::source::Location are recursive
@@ -425,13 +431,16 @@ class KaniSession:
         if rc != 0:
             errs = re.findall(r"^error(?:\[E\d+\])?: (.*)$", out, re.M)
             tail = "; ".join(errs[:4]) if errs else out[-600:]
+            if os.environ.get("VERIF_BUILD_LOG"):
+                with open(os.environ["VERIF_BUILD_LOG"], "w") as f:
+                    f.write(out)
             raise Inconclusive("Kani build of %s failed (rc=%s): %s" % (self.pkg or self.cwd, rc, tail))
         self.built = True
 
     def unwindset_args(self, h):
         """Resolve h.recursion_bounds to mangled identifiers read from the harness's goto binary."""
-        if not h.recursion_bounds:
-            return []
+        if not h.recursion_bounds and not h.loop_bounds:
+            return ["-Z", "unstable-options", "--cbmc-args", "--unwind", str(h.cbmc_unwind)] if h.cbmc_unwind else []
         import glob
         outs = [p for p in glob.glob(os.path.join(self.target, "kani", "**", "out", "*.out"), recursive=True)
                 if p.endswith(h.name + ".out")]
@@ -446,9 +455,16 @@ class KaniSession:
             for rx, bound in h.recursion_bounds:
                 if re.search(rx, m.group(1)):
                     pairs.append("%s:%d" % (m.group(2), bound))
+        if h.loop_bounds:
+            rc, out, _ = run_cmd(["goto-instrument", "--show-loops", outs[0]], self.cwd, 600)
+            for m in re.finditer(r"^Loop (\S+):\n\s+(.*)$", out, re.M):
+                for rx, bound in h.loop_bounds:
+                    if re.search(rx, m.group(2)):
+                        pairs.append("%s:%d" % (m.group(1), bound))
+        pre = ["--unwind", str(h.cbmc_unwind)] if h.cbmc_unwind else []
         if not pairs:
-            return []
-        return ["-Z", "unstable-options", "--cbmc-args", "--unwindset", ",".join(sorted(set(pairs)))]
+            return ["-Z", "unstable-options", "--cbmc-args"] + pre if pre else []
+        return ["-Z", "unstable-options", "--cbmc-args"] + pre + ["--unwindset", ",".join(sorted(set(pairs)))]
 
     def run_one(self, h, extra_kani=None):
         res = KaniResult(h)
